@@ -180,6 +180,7 @@ def scenarios():
         mods = {
             'same': {'sl': [[2, 0.05]], 'tp': [[1, 0.01], [1, 0.05]]},
             'moved': {'sl': [[2, 0.03]], 'tp': [[1, 0.02], [1, 0.05]]},
+            'nudged': {'sl': [[2, 0.0501]], 'tp': [[1, 0.0101], [1, 0.05]]},        # a trailing stop moves by a hundredth of a percent
             'fewer': {'sl': [[2, 0.05]], 'tp': [[2, 0.05]]},
             'more': {'sl': [[1, 0.05], [1, 0.03]], 'tp': [[1, 0.01], [1, 0.05]]},
             'swap-rows': {'sl': [[2, 0.05]], 'tp': [[1, 0.05], [1, 0.01]]},
@@ -231,6 +232,8 @@ def jobs_for(ctx):
     J = []
     for name, spec in scenarios():
         J.append((name, spec, 'futures', emb))
+        for sc in core.SCALES:
+            J.append((name, spec, 'futures', sc))    # micro-priced and very expensive symbols
         if spec['side'] == 'long' and 'at_entry' not in spec and name.split(' ')[0] in ('entry', 'entry2', 'on_open'):
             J.append((name, spec, 'spot', emb))      # the other scripts re-declare exits larger than the holding, which the spot exchange (rightly) rejects
     return J
